@@ -19,21 +19,24 @@ PROPS = ("C11",)
 INJECT = [("src/descriptor/key.rs", "contracts/kani/k11_keyparse.rs")]
 TRUSTED = [
     "Kani/CBMC; core::str::{from_utf8, split, chars}, bip32 types executed as compiled",
-    "k11_keyparse: core::str::slice_error_fail (cold panic path of a failed &str slice; recursive, formats) stubbed by a plain panic carrying the tag",
+    "k11_keyparse: core::str::slice_error_fail (cold panic path of a failed &str slice; recursive, formats) stubbed by a plain panic carrying the obligation tag",
+    "k11_keyparse: bip32::Fingerprint::from_hex stubbed by a PANICKING stub: within the bound (<= 3 bytes) the 8-character fingerprint check in front of it always fails, "
+    "so the call is unreachable -- the harness proves that (a reachable stub fails the harness); the stub only lets CBMC cut the hex / Vec / integer parsing code behind it",
     "kani::assume only restricts the symbolic length to the stated bound",
 ]
 DROPPED = [
-    "DescriptorPublicKey::from_str / DescriptorSecretKey::from_str / parse_xkey_deriv on symbolic input: >= 64-byte strings, base58 + SHA-256d + secp256k1 FFI: out of CBMC's reach",
+    "DescriptorPublicKey::from_str / DescriptorSecretKey::from_str / parse_xkey_deriv on symbolic input: from_str rejects everything below 64 bytes before parse_key_origin runs; symbolic 64..66-byte strings through UTF-8 validation, str::split, base58 + SHA-256d + secp256k1 FFI are out of CBMC's reach (parse_key_origin alone on 2 symbolic bytes WITHOUT the from_hex cut: > 15 min, > 8 GB)",
     "parse_key_origin on strings long enough to reach Fingerprint::from_hex / ChildNumber::from_str (>= 10 bytes): not within the 120 s budget",
     "termination / allocation bounds on arbitrary-length input: not decided",
 ]
 KANI_ARGS = ["--no-assertion-reach-checks"]
 
+T = ["C11:keyparse.str_slice_on_char_boundary", "C11:keyparse.accepted_key_part_is_ascii", "C11:keyparse.bound_does_not_reach_fingerprint_parser"]
 HARNESSES = [
-    dict(name="parse_key_origin_no_panic_utf8_le2", fn="parse_key_origin", props=("C11",), kind="bounded",
-         bound="every valid UTF-8 string of <= 2 bytes", tier="quick",
-         tags=["C11:keyparse.str_slice_on_char_boundary", "C11:keyparse.accepted_key_part_is_ascii"]),
-    dict(name="parse_key_origin_no_panic_utf8_le3", fn="parse_key_origin", props=("C11",), kind="bounded",
-         bound="every valid UTF-8 string of <= 3 bytes", tier="quick",
-         tags=["C11:keyparse.str_slice_on_char_boundary", "C11:keyparse.accepted_key_part_is_ascii"]),
+    dict(name="parse_key_origin_no_panic_utf8_len01", fn="parse_key_origin", props=("C11",), kind="bounded",
+         bound="every valid UTF-8 string of 0 or 1 bytes", tier="quick", tags=T + ["C11:keyparse.empty_key_rejected"]),
+    dict(name="parse_key_origin_no_panic_utf8_len2", fn="parse_key_origin", props=("C11",), kind="bounded",
+         bound="every valid UTF-8 string of exactly 2 bytes (incl. every 2-byte character U+0080..U+07FF)", tier="quick", tags=T),
+    dict(name="parse_key_origin_no_panic_utf8_len3", fn="parse_key_origin", props=("C11",), kind="bounded",
+         bound="every valid UTF-8 string of exactly 3 bytes (incl. every 3-byte character and 2-byte + ASCII mixes)", tier="quick", tags=T),
 ]
